@@ -238,6 +238,8 @@ impl<T: RefCnt, Cfg: Config> CaS<T> for HybridStrategy<Cfg> {
                 // destructor panic, `old` is released by the unwinding. As a return value already
                 // in flight (with `new` dropped as a parameter afterwards) it would be leaked.
                 drop(new);
+                // The same holds for `current` if it is an owned guard.
+                drop(current);
                 return old;
             }
             // If they are still equal, put the new one in.
@@ -253,6 +255,8 @@ impl<T: RefCnt, Cfg: Config> CaS<T> for HybridStrategy<Cfg> {
                 // We just got one ref count out of the storage and we have one in old. We don't
                 // need two.
                 T::dec(old.as_ptr());
+                // See above: nothing that can run a destructor may be left for after the return.
+                drop(current);
                 return old;
             }
             verif_step!(CAS_RETRY);
